@@ -884,6 +884,45 @@ pub fn main(tier: Tier, replay: Option<Value>) -> i32 {
             Err(e) => run.machinery(format!("srs worker for degree {} panicked: {}", d, e)),
         }
     }
+    // large parameter sets (several thousand powers): point count, P_0 = g and EVERY
+    // consecutive link by two pairings; generation in batches must not restart anywhere
+    if want("srs") {
+        let large: Vec<usize> = tier.pick(vec![8200], vec![4090, 8200, 12300, 16390]);
+        run.bound("large_srs_degrees", json!(large));
+        for d in large {
+            let desc = json!({"kernel": "setup", "degree": d});
+            match setup(d) {
+                Err(e) => acc.fail("srs", "srs/setup-fails", format!("PublicParameters::setup({}) failed: {}", d, e), desc),
+                Ok(pp) => {
+                    let bytes = pp.to_var_bytes();
+                    let Some(srs) = m4::parse_srs(&bytes) else {
+                        acc.fail("srs", "srs/unparsable-bytes", format!("to_var_bytes of setup({}) does not decode into valid points", d), desc);
+                        continue;
+                    };
+                    if srs.powers.len() != d + 7 || srs.powers[0] != srs.g {
+                        acc.fail("srs", "srs/point-count", format!("setup({}) has {} points or P_0 != g", d, srs.powers.len()), desc.clone());
+                    }
+                    let idx: Vec<usize> = (0..srs.powers.len() - 1).collect();
+                    let chunks: Vec<Vec<usize>> = idx.chunks(128).map(|c| c.to_vec()).collect();
+                    let srs = Arc::new(srs);
+                    for (ci, r) in par_map(&chunks, |c| c.iter().filter(|i| !m4::is_next_power(&srs.powers[**i + 1], &srs.powers[**i], &srs.h, &srs.x_h)).cloned().collect::<Vec<usize>>()).into_iter().enumerate() {
+                        match r {
+                            Err(e) => run.machinery(format!("large srs worker panicked: {}", e)),
+                            Ok(bad) => {
+                                for _ in 0..chunks[ci].len() - bad.len() {
+                                    acc.outcome("srs:power-link-consistent");
+                                }
+                                acc.case("setup-power-link-large", &format!("d={}", d), Some(fnv(format!("largelink|{}|{}", d, ci).as_bytes())));
+                                if let Some(i) = bad.first() {
+                                    acc.fail("srs", "srs/inconsistent-powers", format!("setup({}): e(P_{}, h) != e(P_{}, x_h) ({} bad links in this block)", d, i + 1, i, bad.len()), json!({"kernel": "setup", "degree": d, "index": i}));
+                                }
+                            }
+                        }
+                    }
+                }
+            }
+        }
+    }
     eprintln!("[C20] srs done at {:.1}s", run.elapsed());
     if want("trim") {
         for p in par_map(&ctxs, |c| trim_for(c)) {
